@@ -47,6 +47,9 @@ CHECKS = {
  "C22": ("exploration", "reference formatters + JSON round-trip decoder vs real handlers and push path",
    "2.1k/100k random stores (pairwise distinct values and timestamps so another label set's data is distinguishable; every kind/type; 0-3 keys incl. unsorted order; non-finite floats; three prefixes; random hostnames) exported via /json, /varz, /graphite and the graphite/statsd/collectd push path (one record per write through the verif write hook); records compared as multisets (label-pair order canonicalised) with reference formatters; JSON decoded field by field.",
    "Label values exclude whitespace and the formats' separators, as the quantifier states; out-of-scope metrics' records ignored; known finding C22-b (JSON with non-finite floats).", "§4 C22"),
+ "C23": ("exploration", "AST-equivalence monitor over the real parser/checker/unparser (+ cmd/mfmt binary in thorough)",
+   "2k/80k generated well-typed programs with the features a formatter can lose turned up (grouping that overrides precedence at every level pair, hidden/as/limit, tiny bucket bounds, integral float literals, escaped strings and regexes, const fragments, decorators, del after): formatted output must parse and check, have the same normalised AST, and be a fixed point of formatting; thorough also runs the built cmd/mfmt on a sample.",
+   "Normaliser ignores positions/types/symbols, treats ConvExpr / implicit MATCH / empty index lists as transparent. Quoted metric names and keys are not generated.", "§4 C23"),
 }
 NOT_APPLICABLE = {}
 
